@@ -446,6 +446,18 @@ func runCheck(args []string) int {
 			fmt.Printf("replay %s: %s\n", k.Replay, res)
 		}
 	}
+	mustFail := map[string]interface{}{}
+	if *tier == "thorough" && os.Getenv("GOVC_NO_SELFTEST") == "" && os.Getenv("GOVC_REPO") == "" {
+		mustFail = mustFailCorpus(*prop)
+		if nd, _ := mustFail["not_detected"].([]string); len(nd) > 0 {
+			// the machinery no longer detects a change it is recorded to detect: not a violation of the property, an engine error
+			fmt.Fprintf(os.Stderr, "govc: engine error: must-fail corpus: seeded changes no longer detected by this check: %v\n", nd)
+			for _, l := range violLines {
+				fmt.Println(l)
+			}
+			return 2
+		}
+	}
 	for _, l := range violLines {
 		fmt.Println(l)
 	}
@@ -510,6 +522,7 @@ func runCheck(args []string) int {
 			"generation_s":                  genS,
 			"solve_s":                       solveS,
 			"frame_prefixes_matching_no_component_in_this_run": V.unmatchedFramePrefixes(nil),
+			"must_fail_corpus": mustFail,
 		},
 	}
 	if samples == nil {
@@ -621,5 +634,89 @@ func (V *Verifier) reachableFrom(roots []string) map[string]bool {
 			}
 		}
 	}
+	return out
+}
+
+// mustFailCorpus (thorough tier): every seeded change that seeded/CATCH.json records as reported by this property's check is
+// applied to a scratch copy of the tree under test and the quick check is run against the copy; it must report a violation.
+// Guards the machinery itself against vacuity (a check that passes everything). Changes whose patch does not apply to the
+// tree under test are skipped.
+func mustFailCorpus(prop string) map[string]interface{} {
+	out := map[string]interface{}{}
+	var catch struct {
+		Changes []struct {
+			Id       string   `json:"id"`
+			CaughtBy []string `json:"caught_by"`
+		} `json:"changes"`
+	}
+	if err := loadJSON(filepath.Join(verifDir, "seeded", "CATCH.json"), &catch); err != nil {
+		out["skipped"] = "no seeded/CATCH.json"
+		return out
+	}
+	var ids []string
+	for _, ch := range catch.Changes {
+		for _, p := range ch.CaughtBy {
+			if p == prop {
+				ids = append(ids, ch.Id)
+			}
+		}
+	}
+	self, _ := os.Executable()
+	var detected, notDetected, skipped []string
+	var mu sync.Mutex
+	var wg sync.WaitGroup
+	sem := make(chan struct{}, 4)
+	for _, id := range ids {
+		wg.Add(1)
+		sem <- struct{}{}
+		go func(id string) {
+			defer wg.Done()
+			defer func() { <-sem }()
+			scratch, err := os.MkdirTemp("", "govc-mustfail-")
+			if err != nil {
+				return
+			}
+			defer os.RemoveAll(scratch)
+			repo := filepath.Join(scratch, "repo")
+			if o, err := exec.Command("rsync", "-a", "--exclude", ".git", repoDir+"/", repo+"/").CombinedOutput(); err != nil {
+				mu.Lock()
+				skipped = append(skipped, id+": copy failed: "+firstLine(string(o)))
+				mu.Unlock()
+				return
+			}
+			ap := exec.Command("git", "apply", filepath.Join(verifDir, "seeded", id, "patch.diff"))
+			ap.Dir = repo
+			if o, err := ap.CombinedOutput(); err != nil {
+				mu.Lock()
+				skipped = append(skipped, id+": patch does not apply to the tree under test: "+firstLine(string(o)))
+				mu.Unlock()
+				return
+			}
+			cmd := exec.Command(self, "check", "-p", prop, "-tier", "quick")
+			cmd.Dir = verifDir
+			cmd.Env = append(os.Environ(), "GOVC_REPO="+repo, "GOVC_WORK="+filepath.Join(scratch, "work"), "GOVC_EVIDENCE_DIR="+filepath.Join(scratch, "ev"), "GOVC_NO_WITNESS=1", "VERIF_TIER=quick")
+			o, _ := cmd.CombinedOutput()
+			code := cmd.ProcessState.ExitCode()
+			mu.Lock()
+			switch {
+			case code == 1 && strings.Contains(string(o), "VIOLATION property="+prop):
+				detected = append(detected, id)
+			case code == 0:
+				notDetected = append(notDetected, id)
+			default:
+				skipped = append(skipped, fmt.Sprintf("%s: check exited %d on the changed copy (%s)", id, code, firstLine(string(o))))
+			}
+			mu.Unlock()
+		}(id)
+	}
+	wg.Wait()
+	sort.Strings(detected)
+	sort.Strings(notDetected)
+	sort.Strings(skipped)
+	out["seeded_changes_recorded_for_this_check"] = len(ids)
+	out["detected"] = detected
+	out["not_detected"] = notDetected
+	out["skipped"] = skipped
+	fmt.Printf("must-fail corpus: %d seeded changes recorded for %s, %d detected, %d not detected, %d skipped\n", len(ids), prop, len(detected), len(notDetected), len(skipped))
 	return out
 }
